@@ -92,10 +92,10 @@ def ideal_obligations(eng, cfg):
         st.locals = {"self": rd, "data_chunk": SBytes(G, cn, gt0)}
         st.ghost["delivered"] = SInt(z3.IntVal(0))
         def hook(st_, lst, item, ctx_, node_, rd=rd):
-            ok = isinstance(item, Ref) and st_.getf(rd, "_frame") == item
+            ok = isinstance(item, Ref) and item == st_.ghost.get("completed_frame") and all(item != x for x in st_.ghost.get("appended", ()))
             ctx_.oblige(st_, "post:returned object is the frame just completed", z3.BoolVal(ok), node_)
             if not ok: return
-            v = reader_view(st_, rd); d = st_.getf(item, "_frame_data"); e = v["gp"] - 1
+            v = reader_view(st_, rd); d = st_.getf(item, "_frame_data"); e = st_.ghost["completed_at"] - 1
             ctx_.oblige(st_, "post:a frame is returned exactly where the ideal receiver completes one", completes(e, cfg), node_)
             ctx_.oblige(st_, "post:the returned frame has the ideal receiver's octets (array and length)", z3.And(d.arr == FA(e), d.n == FN(e)), node_)
             st_.setf(rd, "$g_last_end", SInt(e))
@@ -107,7 +107,7 @@ def ideal_obligations(eng, cfg):
             for shape in (True, False):
                 s2 = st_h.fork(); tag = f"__l{next(_calls)}"
                 rd2, buf2 = mk_reader(s2, cfg, shape, tag=tag, eng=e)
-                s2.heap[rd.oid] = (s2.heap[rd2.oid][0], s2.heap[rd2.oid][1]); del s2.heap[rd2.oid]
+                adopt(s2, rd, rd2)
                 s2.ghost["appended"] = (); s2.ghost["delivered"] = SInt(fresh("delivered", I))
                 v2 = reader_view(s2, rd); gp = v2["gp"]
                 if shape: s2.pc.append(z3.Implies(v2["raw"].n >= 1, v2["raw"].at(v2["raw"].n - 1) == G[gp - 1]))      # instance of 'raw octets are contiguous in the stream'
